@@ -29,9 +29,9 @@ PROPS = {
                              "original-dropped", "not-deferred", "async", "pool0", "burst", "burst:manual", "burst:pool", "burst:newthread", "burst:ctaskset"],
         "assumptions": _A,
         "runs": {
-            "quick": [{"config": "plain", "shards": 16, "args": {"n": 640, "burst": 160}},
-                      {"config": "tsan", "shards": 8, "args": {"n": 64, "burst": 16}},
-                      {"config": "asan-nosba", "shards": 8, "args": {"n": 128, "burst": 24}}],
+            "quick": [{"config": "plain", "shards": 16, "args": {"n": 560, "burst": 128}},
+                      {"config": "tsan", "shards": 8, "args": {"n": 48, "burst": 12}},
+                      {"config": "asan-nosba", "shards": 8, "args": {"n": 96, "burst": 16}}],
             "thorough": [{"config": "plain", "shards": 16, "seeds": 3},
                          {"config": "tsan", "shards": 16, "args": {"n": 8000}},
                          {"config": "asan-nosba", "shards": 16, "args": {"n": 12000}},
